@@ -6,6 +6,10 @@ import apifam, tokfam
 from checks import c01
 
 
+def harness_lines(out):
+    return [json.loads(l) for l in out.splitlines() if l.startswith("{")]
+
+
 def run(chk):
     quick = chk.tier == "quick"
     yv = build_harness()
@@ -34,6 +38,11 @@ def run(chk):
     # snapshot / clone at every position of a stream, all subjects (direction A)
     progs = apifam.programs(chk, "Api_snap.cfg", simulate=250 if quick else 2500, depth=12, cap=250 if quick else 2500)
     apifam.replay(chk, yv, "c13", progs, mode="snap")
+    # Renko: a restored instance has bit-identical brick boundaries (probed behaviourally by bisection: the first price in
+    # either direction at which a brick is emitted), at every step of a stream
+    for m in harness_lines(run_harness(yv, ["renko-snapshot", chk.seed, 8 if quick else 40, 60 if quick else 300], timeout=3000)):
+        if m.get("kind") == "mismatch":
+            chk.finding(m["key"], {"stage": "A:renko-boundaries", "ctx": m.get("ctx")})
     # indicator instances (snapshot at every position, static) and configurations (serde round trip)
     from checks import c11
     for m in c11.ind_api(chk, yv, "c13ind", quick):
